@@ -24,6 +24,10 @@ def run(ctx):
     ctx.rule("R11-5", "between stdout and the splice only trailing newlines are removed")
     ctx.rule("R11-8", "cmd runs exactly once: no function expands the same line twice - on no path do two call sites that "
                       "(transitively) reach shell::do_expansion receive text derived from the same parameter")
+    ctx.rule("R11-9", "never a hang: the pattern that splices the output in is at least as wide as the loop's gate. The gate "
+                      "is an unanchored search for `$( ... )`; a splice by Regex::replace* whose pattern carries a start / "
+                      "end anchor fails to match words the gate accepts (an earlier `$`, a later newline), replaces "
+                      "nothing, and the loop runs the inner command for ever")
     ctx.rule("R11-7", "the output is spliced into the word that held the substitution: the position recorded for a word is "
                       "not used after the token vector's length changed (E-EDITLIST)")
     for crate in ctx.crates:
@@ -45,6 +49,7 @@ def run(ctx):
         ctx.floor("R11-4", crate, "substitution run_pipeline sites", nsites, 3)
         stutter_rule(ctx, crate)
         surrounding_rule(ctx, crate)
+        splice_width_rule(ctx, crate)
     # terminal give-back at these sites: reuse R07-1 (relabelled)
     before = len(ctx.obligations)
     for crate in ctx.crates:
@@ -309,3 +314,41 @@ def once_rule(ctx, crate):
                % (mir.short(bad[1]), mir.short(bad[3])))
     ctx.ob("R11-8", "call graph", "%d function(s) tokenize-and-expand a text parameter (directly or by passing it on); %d have "
            "two or more such sites" % (len(exp), nfn), True, crate=crate.kind, nontrivial=False)
+
+
+def splice_width_rule(ctx, crate):
+    from .. import refacts
+    b = crate.fn(SITES[0])
+    if b is None:
+        return
+    n = 0
+    for bb, t, c in b.calls():
+        if last_seg(c) in ("replace", "replacen", "replace_all") and "egex" in c:
+            lit = None
+            hit = flow.backward(b, b.call_args(bb)[0], lambda z: z[0] == "call" and last_seg(z[1]) == "new" and "egex" in z[1]
+                                and z[2] and mir.const_str(z[2][0]) is not None)
+            if hit is not None:
+                lit = mir.const_str(hit[2][0])
+            if not ctx.require(lit is not None, "R11-9", "R11-9|%s|pattern#%d" % (b.path, n),
+                               "the splice pattern is not a literal", b.path):
+                n += 1
+                continue
+            sh = refacts.info(lit).get("shape") or {}
+
+            def looks(x):
+                if isinstance(x, dict):
+                    if x.get("k") == "look":
+                        yield x.get("v")
+                    for v in x.values():
+                        yield from looks(v)
+                elif isinstance(x, list):
+                    for v in x:
+                        yield from looks(v)
+            anchors = sorted(set(looks(sh)))
+            ok = bool(sh) and not anchors
+            ctx.ob("R11-9", b.path, "the splice pattern %r is an unanchored search, like the gate" % lit[:40], ok,
+                   key="R11-9|%s|splice-anchored#%d" % (b.path, n), where=b.loc(bb), crate=crate.kind,
+                   detail=None if ok else "anchors %s: for `\"a$1b $(cmd) c\"` the pattern does not match, nothing is replaced "
+                   "and the rewrite loop never ends" % anchors)
+            n += 1
+    ctx.require(n >= 1, "R11-9", "R11-9|%s|anchor" % b.path, "no Regex::replace* splice found", b.path)
